@@ -316,7 +316,10 @@ class Script(object):
                     nxt = due[0].time if due else None
                     if nxt is None or peer_due <= nxt:
                         if s.now < peer_due - 1e-9:
-                            return ('WAIT', round(peer_due - s.now, 6))
+                            dt = peer_due - s.now
+                            if nxt is not None:
+                                dt = min(dt, nxt - s.now)
+                            return ('WAIT', dt)
                         return ('RX', i, self.ka_name)
         if due:
             return ('TICK', 0)
